@@ -190,6 +190,33 @@ def _corpus_pairs(args):
     return out
 
 
+LITERAL_GROUPS = [("argmax", "a ([2 3])", {}, "a ([b c])", {"b": 2, "c": 3}, [(2, 6)]), ("argmax", "a [2 3]", {}, "a [b c]", {"b": 2, "c": 3}, [(2, 2, 3)]),
+                  ("id", "a (2 3) -> a (2 3)", {}, "a (b c) -> a (d e)", {"b": 2, "c": 3, "d": 2, "e": 3}, [(2, 6)]), ("dot", "a [(2 3)], a [(2 3)] -> a", {}, "a [(b c)], a [(d e)] -> a", {"b": 2, "c": 3, "d": 2, "e": 3}, [(2, 6), (2, 6)])]
+
+
+def literal_group_cases(chk):
+    """'a number = a fresh axis of that length' for GROUPS of numbers that occur twice: common-subexpression elimination identifies sub-expressions by their printed text and a literal axis
+    prints as its value, so '(2 3)' on both sides, or '[2 3]' under one bracket, is treated as ONE shared axis - finding F-cse-literal-groups"""
+    import einx
+    out = []
+    for op, short, kws, long_, kwl, shapes in LITERAL_GROUPS:
+        ts = [np.arange(int(np.prod(s)), dtype=float).reshape(s) for s in shapes]
+        a = harness.outcome(lambda: getattr(einx, op)(short, *[t.copy() for t in ts], **kws))
+        b = harness.outcome(lambda: getattr(einx, op)(long_, *[t.copy() for t in ts], **kwl))
+        d = {"kind": "number", "op": op, "short": short, "long": long_, "shapes": [list(s) for s in shapes], "kwargs_short": kws, "kwargs_long": {k: str(v) for k, v in kwl.items()}, "backend": "numpy"}
+        if same(a, b):
+            out.append(("ok", d, None))
+            continue
+        # the recorded deviation: the short form treats the repeated / bracketed literal group as one axis (works where the long form is rejected, or indexes one axis instead of two)
+        if a[0] == "ok" and (b[0] == "exc" or np.asarray(a[1]).shape != np.asarray(b[1]).shape):
+            chk.known_finding("F-cse-literal-groups", "groups of literal numbers that occur twice ('(2 3)' in input and output, '[2 3]' in one bracket) are identified by their printed text and treated as ONE axis: "
+                              "argmax('a ([2 3])') has shape (2, 1) where 'a ([b c])' has (2, 2); id('a (2 3) -> a (2 3)') works where fresh names are rejected")
+            out.append(("ok", d, None))
+        else:
+            out.append(("mismatch", d, f"short form gives {a[:2]}, long form gives {b[:2]}"))
+    return out
+
+
 def run(tier, seed):
     chk = Check("C07", tier, seed, "other")
     ok, sites, failing = frame.rule_descflow()
@@ -198,7 +225,7 @@ def run(tier, seed):
     from ..kernels.base import run_kernel
     for k in c07_implicit.KERNELS:
         chk.add_kernel(run_kernel(k, tier))
-    res = run_pairs()
+    res = run_pairs() + literal_group_cases(chk)
     n = 6 if tier == "quick" else 300
     res += [x for r in harness.pmap(_corpus_pairs, [(seed, i) for i in range(n)]) for x in r]
     fails = [r for r in res if r[0] == "mismatch"]
